@@ -192,6 +192,11 @@ def directed_chains():
     un2 = ["union", False, [["p", P("float32")], ["q", ["vec", P("uint8"), None]]]]
     chain("directed:remove-and-add-union-fields", f + [["u", un], ["w", un2]], f + [["w", un2]], f + [["u", un]])
     chain("directed:integer-to-string-and-back", f, [["a", P("string")]] + f[1:], [f[0], ["b", P("string")], f[2], f[3]])
+    # every integer type to string and back: the text of a 64-bit value must be parsed as a 64-bit value
+    ints = ["int8", "int16", "int32", "int64", "uint8", "uint16", "uint32", "uint64", "size"]
+    fi = [[f"i{k}", P(t)] for k, t in enumerate(ints)]
+    fs = [[f"i{k}", P("string")] for k, t in enumerate(ints)]
+    chain("directed:every-integer-to-string-and-back", fi, fs, fi)
     chain("directed:make-optional-and-back", f, [["a", ["opt", P("int32")]]] + f[1:], f)
     chain("directed:optional-to-union-and-back", f, f[:3] + [["d", ["union", True, [["x", P("int16")], ["y", P("string")]]]]], f)
     chain("directed:scalar-to-union-add-case-remove-case", f,
@@ -274,7 +279,7 @@ def exercise(report, lab, lean, seed, n_sets):
         for k in range(n_sets):
             bufs = [g.rng.choice([1, 2, 3, 64]) for _ in range(nstreams)]
             # (a) read: a stream of version old_i through the newest reader, re-written at the newest version
-            vals = _alternate(g, oldp, g.gen_step_vals(oldp))
+            vals = _with_numeric_text(g, oldp, newest, _alternate(g, oldp, g.gen_step_vals(oldp)))
             parts = [g.gen_partition(len(v[1])) if v[0] == "stream" else [] for v in vals]
             enc = lean.ask({"op": "enc_proto", "proto": oldp, "parts": parts, "vals": vals, "schema": lab.schemas[old_i]})
             inp, outp = os.path.join(lab.root, f"r{old_i}_{k}.in"), os.path.join(lab.root, f"r{old_i}_{k}.out")
@@ -283,7 +288,7 @@ def exercise(report, lab, lean, seed, n_sets):
             rc, err = lab.run_cpp("cur", inp, outp, bufs)
             _judge(report, lab, lean, "read", old_i, newest, lab.schemas[last], vals, want, status, rc, err, outp, seed, changed)
             # (b) write: newest-version values written for version old_i
-            vals = _alternate(g, newest, g.gen_step_vals(newest))
+            vals = _with_numeric_text(g, newest, oldp, _alternate(g, newest, g.gen_step_vals(newest)))
             parts = [g.gen_partition(len(v[1])) if v[0] == "stream" else [] for v in vals]
             enc = lean.ask({"op": "enc_proto", "proto": newest, "parts": parts, "vals": vals, "schema": lab.schemas[last]})
             inp, outp = os.path.join(lab.root, f"w{old_i}_{k}.in"), os.path.join(lab.root, f"w{old_i}_{k}.out")
@@ -291,6 +296,50 @@ def exercise(report, lab, lean, seed, n_sets):
             want, status = _conv_steps(lean, False, newest, oldp, vals)
             rc, err = lab.run_cpp(f"v{old_i}", inp, outp, bufs)
             _judge(report, lab, lean, "write", old_i, oldp, lab.schemas[old_i], vals, want, status, rc, err, outp, seed, changed)
+
+
+INT_RANGE = {"int8": (-2**7, 2**7 - 1), "int16": (-2**15, 2**15 - 1), "int32": (-2**31, 2**31 - 1), "int64": (-2**63, 2**63 - 1),
+             "uint8": (0, 2**8 - 1), "uint16": (0, 2**16 - 1), "uint32": (0, 2**32 - 1), "uint64": (0, 2**64 - 1), "size": (0, 2**64 - 1)}
+
+
+def _numeric_text(rng, src_ty, dst_ty, v, keep=0.0):
+    """where the source holds a string and the other version an integer at the same place, most strings are made the decimal
+    text of a value of that integer type (its limits, the limits of the narrower types, random values): a random string would
+    only ever exercise the error path of the conversion"""
+    if src_ty == ["prim", "string"] and dst_ty[0] == "prim" and dst_ty[1] in INT_RANGE and v[0] == "s":
+        if rng.random() < keep:
+            return v
+        lo, hi = INT_RANGE[dst_ty[1]]
+        n = rng.choice([lo, hi, 0, 1, -1 if lo < 0 else 2, hi // 2, lo // 2, 2**31 if hi > 2**31 else hi, -2**31 - 1 if lo < -2**31 else lo,
+                        2**32 if hi > 2**32 else hi, rng.randint(lo, hi), rng.randint(lo, hi)])
+        return ["s", str(n).encode().hex()]
+    if src_ty[0] != dst_ty[0]:
+        return v
+    k = src_ty[0]
+    if k == "rec" and v[0] == "rec":
+        dst_fields = dict((n, t) for n, t in dst_ty[1])
+        return ["rec", [_numeric_text(rng, t, dst_fields[n], x, keep) if n in dst_fields else x for (n, t), x in zip(src_ty[1], v[1])]]
+    if k == "opt" and v[0] == "some":
+        return ["some", _numeric_text(rng, src_ty[1], dst_ty[1], v[1], keep)]
+    if k == "vec" and v[0] == "list":
+        return ["list", [_numeric_text(rng, src_ty[1], dst_ty[1], x, keep) for x in v[1]]]
+    return v
+
+
+def _with_numeric_text(g, src_proto, dst_proto, vals):
+    dst = {s["name"]: s for s in dst_proto}
+    out = []
+    # three value sets in four: every such string is numeric (one text that cannot be converted fails the whole stream)
+    keep = 0.0 if g.rng.random() < 0.75 else 0.2
+    for s, v in zip(src_proto, vals):
+        d = dst.get(s["name"])
+        if d is None or d["stream"] != s["stream"]:
+            out.append(v)
+        elif s["stream"]:
+            out.append(["stream", [_numeric_text(g.rng, s["ty"], d["ty"], x, keep) for x in v[1]]])
+        else:
+            out.append(["single", _numeric_text(g.rng, s["ty"], d["ty"], v[1], keep)])
+    return out
 
 
 def _alternate(g, proto, vals):
@@ -313,6 +362,8 @@ def _judge(report, lab, lean, direction, old_i, dst_proto, dst_schema, vals, wan
     report.case(distinct_key=(lab.idx, old_i, direction, json.dumps(vals)) if changed else None,
                 sample={"chain": lab.idx, "edits": lab.descs, "direction": direction, "version": f"v{old_i}", "status": status} if report.evaluations % 40 == 0 else None)
     report.count(f"{direction}.{status}")
+    if lab.descs and str(lab.descs[0][0]).startswith("directed:"):
+        report.count(f"{lab.descs[0][0]}.{direction}.{status}")
     replay = {"seed": seed, "chain": lab.idx, "edits": lab.descs, "direction": direction, "listed_version": f"v{old_i}",
               "values": vals if len(json.dumps(vals)) < 4000 else "(large)", "model_expects": want if len(json.dumps(want)) < 4000 else "(large)",
               "model_status": status, "rc": rc, "stderr": err, "files": lab.files()}
